@@ -65,7 +65,12 @@ def gen_history(rng, idx):
                 ops.append([7, sid, 1])
         else:
             ops.append([0, sid, 1])
-        if rng.random() >= burst:
+        run_len = 0
+        for q in reversed(ops):
+            if q[0] == 3:
+                break
+            run_len += 1
+        if rng.random() >= burst or run_len >= 6:
             ops.append([3])
     if rng.random() < 0.5:
         ops.append([3])
